@@ -371,6 +371,9 @@ pub fn main(args: &[String]) {
                 kw = names;
             }
         }
+        for part in tag.split('+') {
+            rep.count(&format!("extras:{}", part.split(':').next().unwrap_or(part)));
+        }
         let case = format!("(c09 {target} seed={} module={i} extras={tag})", a.seed);
         rep.case(&case);
         let o = tool::run_backend(&src, target);
